@@ -20,8 +20,8 @@ class Prop(BaseProp):
     id = "C05"
     theorems = ["C05_prefixes_are_spec", "C05_script_templates", "C05_address_spec", "C05_base58_address_decodes", "C05_ripemd_padding"]
     exec_modules = ["Exec.C05"]
-    extra_modules = {"C05Src": ["C05_source_p2pkh", "C05_source_p2sh", "C05_source_segwit", "C05_source_ripemd_compress", "C05_source_ripemd160", "C05_source_translated"]}
-    pysem_funcs = ['helper.h160_to_p2pkh_address', 'helper.h160_to_p2sh_address', 'helper.h160_to_p2wpkh_address', 'helper.h256_to_p2wsh_address', 'helper.big_endian_to_int', 'helper.int_to_big_endian', 'ripemd.fi', 'ripemd.rol', 'ripemd.compress', 'ripemd.ripemd160']
+    extra_modules = {"C05Src": ["C05_source_p2pkh", "C05_source_p2sh", "C05_source_segwit", "C05_source_ripemd_compress", "C05_source_ripemd160", "C05_source_script_templates", "C05_source_translated"]}
+    pysem_funcs = ['helper.h160_to_p2pkh_address', 'helper.h160_to_p2sh_address', 'helper.h160_to_p2wpkh_address', 'helper.h256_to_p2wsh_address', 'helper.big_endian_to_int', 'helper.int_to_big_endian', 'ripemd.fi', 'ripemd.rol', 'ripemd.compress', 'ripemd.ripemd160', 'script.Script.__init__', 'script.p2pkh_script', 'script.p2sh_script', 'script.p2wpkh_script', 'script.p2wsh_script']
     exec_import = "From BHW Require Import Lib.Base Exec.Common Exec.Bip32E Exec.C05.\nFrom Coq Require Import String.\nOpen Scope string_scope."
     shard = 8
     rule = ("Addr: private and public-only nodes (scalars 1, n-1, random; points of both parities, x with leading zero bytes, HASH160 of the "
